@@ -8,6 +8,14 @@ namespace wit {
 namespace layout {
     namespace d = bluetoe::details;
 
+    // ---- handles a characteristic pins with attribute_handle< H > (declaration H, value H + 1, third attribute H + 2) or attribute_handles< D, V, C >
+    template < class... O > struct pinned { static constexpr std::uint16_t decl = 0, value = 0, third = 0; };
+    template < class T, class... R > struct pinned< T, R... > : pinned< R... > {};
+    template < std::uint16_t H, class... R >
+    struct pinned< b::attribute_handle< H >, R... > { static constexpr std::uint16_t decl = H, value = H + 1, third = H + 2; };
+    template < std::uint16_t D, std::uint16_t V, std::uint16_t C, class... R >
+    struct pinned< b::attribute_handles< D, V, C >, R... > { static constexpr std::uint16_t decl = D, value = V, third = C; };
+
     // ---- characteristics of one service
     template < std::uint16_t H, std::uint16_t I, class Chars > struct chars;
     template < std::uint16_t H, std::uint16_t I >
@@ -29,6 +37,10 @@ namespace layout {
             && hs::declaration_handle >= H                                  // increasing over the previous attribute
             && hs::value_handle > hs::declaration_handle                    // the value follows its declaration
             && ( c::number_of_attributes == 2 || hs::cccd_handle > hs::value_handle )
+            && ( pinned< O... >::decl  == 0 || hs::declaration_handle == pinned< O... >::decl )      // fixed handles honoured
+            && ( pinned< O... >::value == 0 || hs::value_handle == pinned< O... >::value )
+            && ( pinned< O... >::third == 0 || c::number_of_attributes == 2 || hs::cccd_handle == pinned< O... >::third )
+            && ( pinned< O... >::decl  != 0 || hs::declaration_handle == H )                          // no gap without a fixed handle
             && m::end_index == I + c::number_of_attributes
             && m::end_handle > hs::value_handle
             && ( c::number_of_attributes == 2 || m::end_handle >= hs::cccd_handle + ( c::number_of_attributes - 2 ) );
